@@ -258,40 +258,68 @@ theorem loop_factors {σ : Type} (cb : Callback σ) (c : Cache) (dir : Int) :
 
 /-! ## the whole walk -/
 
-/-- sub-page number the walk starts from: that of the page found at the start position -/
-def startSub (c : Cache) (p sub : Int) : Int := startSubOf (lookup c p sub) sub
+/-- the page the look-up of the START position returns, in either source shape -/
+def lookupS (sh : Shape) (c : Cache) (p s : Int) : Option Entry :=
+  if sh.startExact then (if 0x100 ≤ p ∧ p ≤ 0x8FF then lookupX c p s else none) else lookup c p s
+
+theorem getStart_fst (sh : Shape) (c : Cache) (p s : Int) : (getStart sh c p s).1 = lookupS sh c p s := by
+  unfold getStart lookupS
+  cases sh.startExact with
+  | false => simp only [Bool.false_eq_true, if_false]; exact getPage_fst c p s
+  | true =>
+    simp only [if_true]
+    by_cases hp : 0x100 ≤ p ∧ p ≤ 0x8FF
+    · rw [if_pos hp, if_pos hp]; exact getExact_fst c p s
+    · rw [if_neg hp, if_neg hp]
+
+theorem getStart_equiv {c c' : Cache} (h : Equiv c c') (sh : Shape) (p s : Int) : Equiv c (getStart sh c' p s).2 := by
+  unfold getStart
+  cases sh.startExact with
+  | false => simp only [Bool.false_eq_true, if_false]; exact getPage_equiv h p s
+  | true =>
+    simp only [if_true]
+    by_cases hp : 0x100 ≤ p ∧ p ≤ 0x8FF
+    · rw [if_pos hp]; exact getExact_equiv h p s
+    · rw [if_neg hp]; exact h
+
+/-- sub-page number the walk starts from: unrepaired shape - that of the page found at the start position (or 0
+    for the wildcard without a page); repaired shape - the caller's -/
+def startSub (sh : Shape) (c : Cache) (p sub : Int) : Int := startSubS sh (lookupS sh c p sub) sub
+
+theorem startSub_repaired (sh : Shape) (h : sh.startExact = true) (c : Cache) (p sub : Int) : startSub sh c p sub = sub := by
+  unfold startSub startSubS; simp [h]
 
 /-- all positions a walk probes when its callback never stops it: the start position, then one per iteration -/
-def walkPositions (c : Cache) (p sub dir : Int) : List Pos :=
-  (p, startSub c p sub, false) :: positions c dir walkFuel p (startSub c p sub) false
+def walkPositions (sh : Shape) (c : Cache) (p sub dir : Int) : List Pos :=
+  (p, startSub sh c p sub, false) :: positions c dir walkFuel p (startSub sh c p sub) false
 
-/-- the walk as a fold: the callback on the page `_vbi_cache_get_page` finds at the start position (wildcard
-    sub-page number allowed), then on the pages the exact look-up finds at the later positions -/
-def walkRun {σ : Type} (cb : Callback σ) (c : Cache) (p sub dir : Int) (s : σ) : Int × σ :=
-  match firstCall cb s p false (lookup c p sub) with
-  | (r, s1) => if r ≠ 0 then (r, s1) else runPos cb c (positions c dir walkFuel p (startSub c p sub) false) s1
+/-- the walk as a fold: the callback on the page the start look-up finds (unrepaired shape: wildcard sub-page number
+    honoured; repaired shape: exact), then on the pages the exact look-up finds at the later positions -/
+def walkRun {σ : Type} (sh : Shape) (cb : Callback σ) (c : Cache) (p sub dir : Int) (s : σ) : Int × σ :=
+  match firstCall cb s p false (lookupS sh c p sub) with
+  | (r, s1) => if r ≠ 0 then (r, s1) else runPos cb c (positions c dir walkFuel p (startSub sh c p sub) false) s1
 
-theorem walk_factors {σ : Type} (cb : Callback σ) (c : Cache) (s : σ) (p sub dir : Int)
+theorem walk_factors {σ : Type} (sh : Shape) (cb : Callback σ) (c : Cache) (s : σ) (p sub dir : Int)
     (hne : c.nCached ≠ 0) (hp : PgOk p) (hdir : dir = 1 ∨ dir = -1) :
-    (walk cb walkFuel c s p sub dir).res = .ret (walkRun cb c p sub dir s).1 ∧
-    (walk cb walkFuel c s p sub dir).st = (walkRun cb c p sub dir s).2 := by
+    (walk sh cb walkFuel c s p sub dir).res = .ret (walkRun sh cb c p sub dir s).1 ∧
+    (walk sh cb walkFuel c s p sub dir).st = (walkRun sh cb c p sub dir s).2 := by
   unfold walk walkRun
   simp only [hne, if_false]
-  have hfst := getPage_fst c p sub
-  have heq := getPage_equiv (Equiv.refl c) p sub
-  generalize getPage c p sub = g at hfst heq
+  have hfst := getStart_fst sh c p sub
+  have heq := getStart_equiv (Equiv.refl c) sh p sub
+  generalize getStart sh c p sub = g at hfst heq
   obtain ⟨cp, c1⟩ := g
   simp only at hfst heq ⊢
   have hpo : ¬ (p < 0x100 ∨ p > 0x8FF) := by unfold PgOk at hp; omega
   simp only [hpo, if_false]
-  have hsub : startSubOf cp sub = startSub c p sub := by
+  have hsub : startSubS sh cp sub = startSub sh c p sub := by
     unfold startSub; rw [← hfst]
   rw [hsub]
-  have hterm : (loop cb dir walkFuel c1 s p (startSub c p sub) false cp).res ≠ .outOfFuel := by
+  have hterm : (loop cb dir walkFuel c1 s p (startSub sh c p sub) false cp).res ≠ .outOfFuel := by
     rcases hdir with rfl | rfl
     · exact loop_fwd_terminates cb _ _ _ _ _ _ _ hp (rankF_lt_fuel hp _ _)
     · exact loop_bwd_terminates cb _ _ _ _ _ _ _ hp (rankB_lt_fuel hp _ _)
-  rcases loop_factors cb c dir walkFuel c1 s p (startSub c p sub) false cp heq with h0 | ⟨h1, h2⟩
+  rcases loop_factors cb c dir walkFuel c1 s p (startSub sh c p sub) false cp heq with h0 | ⟨h1, h2⟩
   · exact absurd h0 hterm
   · rw [h1, h2, ← hfst]
     generalize firstCall cb s p false cp = rs
@@ -299,14 +327,10 @@ theorem walk_factors {σ : Type} (cb : Callback σ) (c : Cache) (s : σ) (p sub 
     simp only
     by_cases hr : r ≠ 0 <;> simp [hr]
 
-/-- the start page number passes the check of `_vbi_cache_get_page` (not xFF), or nothing is cached under it
-    (`_vbi_cache_put_page` stores no page xFF: `noFF_build`) -/
-def StartOk (c : Cache) (p : Int) : Prop := validPgno p = true ∨ (c.slots p.toNat).chain = []
-
-/-- the exact look-up at the start position finds the page the walk started with -/
-theorem lookupX_startSub (c : Cache) (p sub : Int) (hok : StartOk c p) :
-    lookupX c p (startSub c p sub) = lookup c p sub := by
-  unfold startSub startSubOf lookupX
+/-- unrepaired shape: the exact look-up at the start position finds the page `_vbi_cache_get_page` returned -/
+theorem lookupX_startSubW (c : Cache) (p sub : Int) (hok : validPgno p = true ∨ (c.slots p.toNat).chain = []) :
+    lookupX c p (startSubOf (lookup c p sub) sub) = lookup c p sub := by
+  unfold startSubOf lookupX
   by_cases hv : validPgno p = true
   · cases hl : lookup c p sub with
     | none =>
@@ -347,12 +371,34 @@ theorem lookupX_startSub (c : Cache) (p sub : Int) (hok : StartOk c p) :
     have hl : lookup c p sub = none := by unfold lookup; simp [hv]
     rw [hl, hc]; simp
 
+/-- what the uniform statement needs about the start page number: nothing in the repaired shape; in the unrepaired
+    shape it passes the check of `_vbi_cache_get_page` (not xFF), or nothing is cached under it
+    (`_vbi_cache_put_page` stores no page xFF: `build_noFF`) -/
+def StartOk (sh : Shape) (c : Cache) (p : Int) : Prop :=
+  sh.startExact = true ∨ validPgno p = true ∨ (c.slots p.toNat).chain = []
+
+/-- the exact look-up at the start position finds the page the walk started with -/
+theorem lookupX_startSub (sh : Shape) (c : Cache) (p sub : Int) (hp : PgOk p) (hok : StartOk sh c p) :
+    lookupX c p (startSub sh c p sub) = lookupS sh c p sub := by
+  unfold startSub startSubS lookupS
+  cases hse : sh.startExact with
+  | true =>
+    unfold PgOk at hp
+    simp only [if_true, if_pos hp]
+  | false =>
+    simp only [Bool.false_eq_true, if_false]
+    apply lookupX_startSubW
+    rcases hok with h | h
+    · rw [hse] at h; cases h
+    · exact h
+
 /-- with `StartOk` the walk is the uniform fold over `walkPositions` -/
-theorem walkRun_eq_runPos {σ : Type} (cb : Callback σ) (c : Cache) (p sub dir : Int) (s : σ) (hok : StartOk c p) :
-    walkRun cb c p sub dir s = runPos cb c (walkPositions c p sub dir) s := by
+theorem walkRun_eq_runPos {σ : Type} (sh : Shape) (cb : Callback σ) (c : Cache) (p sub dir : Int) (s : σ) (hp : PgOk p)
+    (hok : StartOk sh c p) :
+    walkRun sh cb c p sub dir s = runPos cb c (walkPositions sh c p sub dir) s := by
   unfold walkRun walkPositions
-  rw [runPos_cons, lookupX_startSub c p sub hok]
-  cases lookup c p sub with
+  rw [runPos_cons, lookupX_startSub sh c p sub hp hok]
+  cases lookupS sh c p sub with
   | none => simp [firstCall]
   | some e => rfl
 
